@@ -93,6 +93,7 @@ void sym_inputs(void)
 #ifdef REPLAY
 #include "replay_inputs.inc"
 #else
+  SYM_FEED();
   SYM_ARR(msg); SYM(msglen);
 #endif
 }
